@@ -3,19 +3,19 @@
 # (demo passes on the clean tree, patch applies, test suite unchanged, demo fails with the patch) and run our check on it.
 id=$1; k=$2; tier=${3:-quick}
 out=${SEEDWORK:-/tmp/seedwork}/out-$id
-d=/dev/shm/odml-seed-$$
+d=/dev/shm/odml-seed-$id-$k-$$
 git -C /repo worktree add -q --detach $d HEAD || exit 2
 trap 'git -C /repo worktree remove --force '$d' 2>/dev/null' EXIT
 cd $d
-PYTHONPATH=$d timeout 300 /venv/bin/python $out/demo$k.py > /tmp/seed-demo-clean.log 2>&1; clean=$?
+PYTHONPATH=$d timeout 300 /venv/bin/python $out/demo$k.py > /tmp/seed-demo-clean-$id-$k.log 2>&1; clean=$?
 if ! git apply $out/patch$k.diff; then echo "RESULT $id-$k patch does not apply"; exit 3; fi
 tests=$(PYTHONPATH=$d timeout 900 /venv/bin/python -m pytest -q -p no:cacheprovider test 2>&1 | tail -1)
-PYTHONPATH=$d timeout 300 /venv/bin/python $out/demo$k.py > /tmp/seed-demo-patched.log 2>&1; patched=$?
+PYTHONPATH=$d timeout 300 /venv/bin/python $out/demo$k.py > /tmp/seed-demo-patched-$id-$k.log 2>&1; patched=$?
 cd /verif
 if [ "$tier" = quick ]; then
-  VERIF_REPO=$d ./vcheck run $id --tier quick > /tmp/seed-check.log 2>&1; rc=$?
+  VERIF_REPO=$d ./vcheck run $id --tier quick > /tmp/seed-check-$id-$k.log 2>&1; rc=$?
 else
-  VERIF_REPO=$d VERIF_BUDGET_S=240 ./vcheck run $id --tier thorough > /tmp/seed-check.log 2>&1; rc=$?
+  VERIF_REPO=$d VERIF_BUDGET_S=240 ./vcheck run $id --tier thorough > /tmp/seed-check-$id-$k.log 2>&1; rc=$?
 fi
 echo "RESULT $id-$k demo_clean=$clean demo_patched=$patched tests='$tests' check_exit=$rc ($tier)"
-grep -E "^(violation|HARNESS)" /tmp/seed-check.log | cut -c1-220 | head -4
+grep -E "^(violation|HARNESS)" /tmp/seed-check-$id-$k.log | cut -c1-220 | head -4
